@@ -82,8 +82,9 @@ func (b *BFT) ProcessDSE(dse ...*DoubleSignEvidence) (results []*lib.DoubleSigne
 		if err != nil {
 			return nil, err
 		}
-		// ensure the evidence isn't expired
-		minEvidenceHeight, err := b.LoadMinimumEvidenceHeight(rootChainId, committeeHeight)
+		// ensure the evidence isn't expired: the minimum is taken as of the replica's current root height
+		// (as of the evidence's own root height the bound always lies below the evidence, so nothing ever expired)
+		minEvidenceHeight, err := b.LoadMinimumEvidenceHeight(rootChainId, b.RootHeight)
 		if err != nil {
 			return nil, err
 		}
